@@ -61,6 +61,11 @@ class Gen:
         k = r.choice(['and', 'or', 'not', 'and', 'or', 'switch'])
         style = r.choice(['ctor', 'op'])
         default = None if r.random() < 0.75 else ['Lit', 'dflt']
+        if default is not None and r.random() < 0.5:
+            # a default is evaluated like any argument: containers are rebuilt, T leaves replaced by their values
+            tn = ['T', 'T', [['[', ['Str', 'n']]]]
+            default = r.choice([['List', [tn]], ['Tuple', [tn, ['Lit', 0]]], ['Dict', False, [[['Str', 'v'], tn]]], ['List', []],
+                                ['Dict', False, []], ['T', 'T', []], ['List', [['T', 'T', []], ['Lit', 1]]]])
         if k in ('and', 'or'):
             kids = [self.tree(depth - 1) for _ in range(r.randint(2, 3))]
             return ['And' if k == 'and' else 'Or', kids, default, style]
